@@ -1,4 +1,7 @@
 import CookModel.Lemmas.Collector
+import CookModel.Lemmas.Diag
+import CookModel.Lemmas.DiagComp
+import CookModel.Lemmas.DiagAnalysis
 /-
   C07  Diagnostics are sound, complete and placed on the offending construct.
 
@@ -34,5 +37,386 @@ theorem C07_parse_error_suppresses (env : Env) (input : Str) (evs : List (Ev α)
 theorem C07_analysis_error_keeps_output (env : Env) (input : Str) (evs : List (Ev α)) (s : Col α)
     (h : ∀ d, Ev.error d ∉ evs) : (parseEventsLoop env input evs s).output.isSome :=
   parseEventsLoop_no_error_output env input evs s h
+
+/-! ### Completeness in isolation, value level (src/parser/quantity.rs) -/
+
+/-- **Zero denominator.**  For every two integer tokens `a`, `b` where `b` spells zero (and `a` fits
+    `u32`), the fraction reader returns the error `division-by-zero` (severity error, stage parse)
+    whose only label is exactly the span of the fraction, from the start of `a` to the end of `b`.
+    Consequently `numeric_value` and `parse_value`'s number reader return that error for every token
+    run `pre ++ mid ++ post` where `pre`/`post` are blanks and comments and the non-blank tokens of
+    `mid` are `a / b` (`1/0`, `1 / 0`, ` 1/0 `…), provided the run is not split as a range. -/
+theorem C07_zero_denominator (a s b : Tok) (ha : a.kind = .int) (hs : s.kind = .slash) (hb : b.kind = .int)
+    (hau : digitsToNat a.text ≤ u32Max) (hb0 : digitsToNat b.text = 0)
+    (pre mid post : List Tok) (hpre : ∀ t ∈ pre, Blank t) (hpost : ∀ t ∈ post, Blank t)
+    (hfirst : mid.head? = some a) (hlast : mid.getLast? = some b)
+    (hmid : mid.filter notWsComment = [a, s, b]) (rangeExt : Bool)
+    (hr : rangeExt = false ∨ ∀ t ∈ pre ++ mid ++ post, t.kind ≠ .minus) :
+    fracNum (α := α) a b = .error ⟨.error, .parse, "division-by-zero", [⟨a.start, b.stop⟩]⟩ ∧
+    numericValue (α := α) (pre ++ mid ++ post) =
+      some (.error ⟨.error, .parse, "division-by-zero", [⟨a.start, b.stop⟩]⟩) ∧
+    numOrRange (α := α) rangeExt (pre ++ mid ++ post) =
+      some (.error ⟨.error, .parse, "division-by-zero", [⟨a.start, b.stop⟩]⟩) := by
+  have hna : ¬ Blank a := by simp [Blank, isWsComment, ha]
+  have hnb : ¬ Blank b := by simp [Blank, isWsComment, hb]
+  have htrim := diag_trim_pad pre post mid a b hpre hpost hfirst hlast hna hnb
+  have hz := diag_fracNum_zero (α := α) a b hau hb0
+  have hnv : numericValue (α := α) (pre ++ mid ++ post) = some (.error (divZeroDiag a b)) := by
+    rw [diag_numericValue_frac _ a s b (by rw [htrim]; exact hmid) ha hs hb, hz]; rfl
+  exact ⟨hz, hnv, by rw [diag_numOrRange_eq _ _ hr]; exact hnv⟩
+
+/-- the same for the mixed form `i a/b` (`1 1/0`): the label is the span of the fraction part -/
+theorem C07_zero_denominator_mixed (i a s b : Tok) (hi : i.kind = .int) (ha : a.kind = .int) (hs : s.kind = .slash)
+    (hb : b.kind = .int) (hiu : digitsToNat i.text ≤ u32Max)
+    (hau : digitsToNat a.text ≤ u32Max) (hb0 : digitsToNat b.text = 0)
+    (pre mid post : List Tok) (hpre : ∀ t ∈ pre, Blank t) (hpost : ∀ t ∈ post, Blank t)
+    (hfirst : mid.head? = some i) (hlast : mid.getLast? = some b)
+    (hmid : mid.filter notWsComment = [i, a, s, b]) (rangeExt : Bool)
+    (hr : rangeExt = false ∨ ∀ t ∈ pre ++ mid ++ post, t.kind ≠ .minus) :
+    mixedNum (α := α) i a b = .error ⟨.error, .parse, "division-by-zero", [⟨a.start, b.stop⟩]⟩ ∧
+    numOrRange (α := α) rangeExt (pre ++ mid ++ post) =
+      some (.error ⟨.error, .parse, "division-by-zero", [⟨a.start, b.stop⟩]⟩) := by
+  have hni : ¬ Blank i := by simp [Blank, isWsComment, hi]
+  have hnb : ¬ Blank b := by simp [Blank, isWsComment, hb]
+  have htrim := diag_trim_pad pre post mid i b hpre hpost hfirst hlast hni hnb
+  have hz := diag_mixedNum_zero (α := α) i a b hiu hau hb0
+  refine ⟨hz, ?_⟩
+  rw [diag_numOrRange_eq _ _ hr, diag_numericValue_mixed _ i a s b (by rw [htrim]; exact hmid) hi ha hs hb, hz]
+  rfl
+
+/-- **Integer overflow.**  A numerator, denominator or whole part above `u32::MAX` gives the error
+    `int-parse` (error, parse stage) labelled with exactly that token; the value readers return it
+    for the padded spellings of the fraction and of the mixed number. -/
+theorem C07_int_overflow (i a s b : Tok) (hi : i.kind = .int) (ha : a.kind = .int) (hs : s.kind = .slash)
+    (hb : b.kind = .int) :
+    (u32Max < digitsToNat a.text →
+      fracNum (α := α) a b = .error ⟨.error, .parse, "int-parse", [⟨a.start, a.stop⟩]⟩) ∧
+    (digitsToNat a.text ≤ u32Max → u32Max < digitsToNat b.text →
+      fracNum (α := α) a b = .error ⟨.error, .parse, "int-parse", [⟨b.start, b.stop⟩]⟩) ∧
+    (u32Max < digitsToNat i.text →
+      mixedNum (α := α) i a b = .error ⟨.error, .parse, "int-parse", [⟨i.start, i.stop⟩]⟩) ∧
+    (∀ (pre mid post : List Tok) (d : Diag) (rangeExt : Bool), (∀ t ∈ pre, Blank t) → (∀ t ∈ post, Blank t) →
+      mid.head? = some a → mid.getLast? = some b → mid.filter notWsComment = [a, s, b] →
+      (rangeExt = false ∨ ∀ t ∈ pre ++ mid ++ post, t.kind ≠ .minus) →
+      fracNum (α := α) a b = .error d →
+      numOrRange (α := α) rangeExt (pre ++ mid ++ post) = some (.error d)) ∧
+    (∀ (pre mid post : List Tok) (d : Diag) (rangeExt : Bool), (∀ t ∈ pre, Blank t) → (∀ t ∈ post, Blank t) →
+      mid.head? = some i → mid.getLast? = some b → mid.filter notWsComment = [i, a, s, b] →
+      (rangeExt = false ∨ ∀ t ∈ pre ++ mid ++ post, t.kind ≠ .minus) →
+      mixedNum (α := α) i a b = .error d →
+      numOrRange (α := α) rangeExt (pre ++ mid ++ post) = some (.error d)) := by
+  have hni : ¬ Blank i := by simp [Blank, isWsComment, hi]
+  have hna : ¬ Blank a := by simp [Blank, isWsComment, ha]
+  have hnb : ¬ Blank b := by simp [Blank, isWsComment, hb]
+  refine ⟨fun h => diag_fracNum_overflow_num a b h, fun h1 h2 => diag_fracNum_overflow_den a b h1 h2,
+    fun h => diag_mixedNum_overflow_whole i a b h, ?_, ?_⟩
+  · intro pre mid post d rangeExt hpre hpost hfirst hlast hmid hr hd
+    have htrim := diag_trim_pad pre post mid a b hpre hpost hfirst hlast hna hnb
+    rw [diag_numOrRange_eq _ _ hr, diag_numericValue_frac _ a s b (by rw [htrim]; exact hmid) ha hs hb, hd]
+    rfl
+  · intro pre mid post d rangeExt hpre hpost hfirst hlast hmid hr hd
+    have htrim := diag_trim_pad pre post mid i b hpre hpost hfirst hlast hni hnb
+    rw [diag_numOrRange_eq _ _ hr, diag_numericValue_mixed _ i a s b (by rw [htrim]; exact hmid) hi ha hs hb, hd]
+    rfl
+
+/-- the reader's error becomes an error EVENT of the parser: `parse_value` pushes exactly it -/
+theorem C07_value_error_pushed (tokens : List Tok) (s : BP α) (d : Diag)
+    (h : numOrRange (α := α) (s.ext.has Gen.EXT_RANGE_VALUES) tokens = some (.error d)) :
+    (parseValue (α := α) tokens s).2.evs = s.evs.push (.error d) := by
+  rw [diag_parseValue_error tokens s d h]
+
+/-! non-vacuity: `1/0`, ` 1 / 0 ` and `2 1/0` with concrete tokens -/
+example : numOrRange (α := Rat) true [⟨.int, ['1'], 0⟩, ⟨.slash, ['/'], 1⟩, ⟨.int, ['0'], 2⟩] =
+    some (.error ⟨.error, .parse, "division-by-zero", [⟨0, 3⟩]⟩) :=
+  (C07_zero_denominator ⟨.int, ['1'], 0⟩ ⟨.slash, ['/'], 1⟩ ⟨.int, ['0'], 2⟩ rfl rfl rfl (by decide) (by decide)
+    [] [⟨.int, ['1'], 0⟩, ⟨.slash, ['/'], 1⟩, ⟨.int, ['0'], 2⟩] [] (by simp) (by simp) rfl rfl rfl true
+    (Or.inr (by decide))).2.2
+example : numOrRange (α := Rat) false
+    [⟨.ws, [' '], 0⟩, ⟨.int, ['2'], 1⟩, ⟨.ws, [' '], 2⟩, ⟨.int, ['1'], 3⟩, ⟨.slash, ['/'], 4⟩, ⟨.int, ['0'], 5⟩] =
+    some (.error ⟨.error, .parse, "division-by-zero", [⟨3, 6⟩]⟩) :=
+  (C07_zero_denominator_mixed ⟨.int, ['2'], 1⟩ ⟨.int, ['1'], 3⟩ ⟨.slash, ['/'], 4⟩ ⟨.int, ['0'], 5⟩ rfl rfl rfl rfl
+    (by decide) (by decide) (by decide) [⟨.ws, [' '], 0⟩]
+    [⟨.int, ['2'], 1⟩, ⟨.ws, [' '], 2⟩, ⟨.int, ['1'], 3⟩, ⟨.slash, ['/'], 4⟩, ⟨.int, ['0'], 5⟩] []
+    (by simp [Blank, isWsComment]) (by simp) rfl rfl rfl false (Or.inl rfl)).2
+example : u32Max < digitsToNat ['4', '2', '9', '4', '9', '6', '7', '2', '9', '6'] := by decide
+
+/-! ### Completeness in isolation, component level (src/parser/step.rs)
+
+  `Has ev s s'`: the event queue of `s'` is the queue of `s` followed by new events, `ev` among them.
+  `Cut k s mtoks body s1 s2 s3`: from state `s` the marker `k` was consumed, `modifiers()` returned the
+  token run `mtoks` and `comp_body()` returned `body` (name tokens, braces, quantity tokens).
+  The theorems hold for EVERY parser state (any tokens, cursor, extensions, queue). -/
+
+/-- **How a component is read.**  Every successful run of `ingredient` / `cookware` / `timer` cuts the
+    component into pieces (`Cut`, and the note for the first two) WITHOUT pushing any event or touching
+    the tables, and is then the run of the tail (`ingredientTail`, `cookwareTail`, `timerTail`: the rest
+    of the Rust function, verbatim) on those pieces. -/
+theorem C07_component_cut (s s' : BP α) (ev : Ev α) :
+    (ingredientP s = (some ev, s') → ∃ mtoks body note s1 s2 s3 s4,
+      Cut .at s mtoks body s1 s2 s3 ∧ noteP s3 = (note, s4) ∧ Same s s4 ∧
+      ingredientP s = ingredientTail (curOff s) (curOff s4) (curOff s1) (curOff s2) mtoks body note s4) ∧
+    (cookwareP s = (some ev, s') → ∃ mtoks body note s1 s2 s3 s4,
+      Cut .hash s mtoks body s1 s2 s3 ∧ noteP s3 = (note, s4) ∧ Same s s4 ∧
+      cookwareP s = cookwareTail (curOff s) (curOff s4) (curOff s1) (curOff s2) mtoks body note s4) ∧
+    (timerP s = (some ev, s') → ∃ mtoks body s1 s2 s3,
+      Cut .tilde s mtoks body s1 s2 s3 ∧ Same s s3 ∧
+      timerP s = timerTail (curOff s) (curOff s3) (curOff s2) mtoks body s3) := by
+  refine ⟨fun h => ?_, fun h => ?_, fun h => ?_⟩
+  · obtain ⟨mtoks, body, note, s1, s2, s3, s4, hc, hn⟩ := ingredientP_some_cut h
+    exact ⟨mtoks, body, note, s1, s2, s3, s4, hc, hn, hc.same.trans (noteP_same hn), ingredientP_cut hc hn⟩
+  · obtain ⟨mtoks, body, note, s1, s2, s3, s4, hc, hn⟩ := cookwareP_some_cut h
+    exact ⟨mtoks, body, note, s1, s2, s3, s4, hc, hn, hc.same.trans (noteP_same hn), cookwareP_cut hc hn⟩
+  · obtain ⟨mtoks, body, s1, s2, s3, hc⟩ := timerP_some_cut h
+    exact ⟨mtoks, body, s1, s2, s3, hc, hc.same, timerP_cut hc⟩
+
+/-- **Empty name.**  Whenever `ingredient` (resp. `cookware`) returns a component whose name text is
+    blank, the run pushed the error `empty-name:ingredient` (resp. `empty-name:cookware`), severity
+    error, stage parse, whose only label is the span of that name text.
+    Partial: that this label lies inside the component's span is not proved here (it is checked on
+    every run by the planted-construct oracle and by C04 for well-formedness of the span). -/
+theorem C07_empty_name_partial (s s' : BP α) :
+    (∀ i, ingredientP s = (some (.ingredient i), s') → i.val.name.isTextEmpty s.cs = true →
+      Has (.error ⟨.error, .parse, "empty-name:ingredient", [i.val.name.span]⟩) s s') ∧
+    (∀ c, cookwareP s = (some (.cookware c), s') → c.val.name.isTextEmpty s.cs = true →
+      Has (.error ⟨.error, .parse, "empty-name:cookware", [c.val.name.span]⟩) s s') := by
+  constructor
+  · intro i h hb
+    obtain ⟨mtoks, body, note, s1, s2, s3, s4, hc, hn⟩ := ingredientP_some_cut h
+    have q4 : Same s s4 := hc.same.trans (noteP_same hn)
+    have ht := ingredientTail_empty_name (α := α) (curOff s) (curOff s4) (curOff s1) (curOff s2) mtoks body note s4
+    unfold Sat at ht
+    rw [← ingredientP_cut hc hn, h] at ht
+    exact ((ht i rfl).2 (by rw [q4.1]; exact hb)).right q4.grow
+  · intro c h hb
+    obtain ⟨mtoks, body, note, s1, s2, s3, s4, hc, hn⟩ := cookwareP_some_cut h
+    have q4 : Same s s4 := hc.same.trans (noteP_same hn)
+    have ht := cookwareTail_empty_name (α := α) (curOff s) (curOff s4) (curOff s1) (curOff s2) mtoks body note s4
+    unfold Sat at ht
+    rw [← cookwareP_cut hc hn, h] at ht
+    exact ((ht c rfl).2 (by rw [q4.1]; exact hb)).right q4.grow
+
+/-- **Unit on cookware.**  If the braces of a cookware item hold the tokens `qt` and `parse_quantity`
+    on them (run where the parser reaches it: a state `sq` with the same tables and extensions and a
+    longer queue) returns a quantity with a unit, the run pushed the error `cookware-unit` (error,
+    parse) labelled from the `%` separator (or, without separator, the unit's start) to the unit's end.
+    Partial: label-inside-the-component is not proved. -/
+theorem C07_cookware_unit_partial (s s1 s2 s3 s4 : BP α) (mtoks : List Tok) (body : Body) (note : Option Text)
+    (hc : Cut .hash s mtoks body s1 s2 s3) (hn : noteP s3 = (note, s4)) :
+    ∃ sq, Grow s sq ∧ ∀ qt unit, body.quantity = some qt →
+      (parseQuantity (α := α) qt sq).1.quantity.val.unit = some unit →
+      Has (.error ⟨.error, .parse, "cookware-unit", [cookwareUnitSpan (parseQuantity (α := α) qt sq).1 unit]⟩)
+        s (cookwareP s).2 := by
+  have q4 : Same s s4 := hc.same.trans (noteP_same hn)
+  have ht := cookwareTail_unit (α := α) (curOff s) (curOff s4) (curOff s1) (curOff s2) mtoks body note s4
+  unfold Sat at ht
+  rw [← cookwareP_cut hc hn] at ht
+  obtain ⟨sq, gq, h⟩ := ht
+  exact ⟨sq, q4.grow.trans gq, fun qt unit hqt hu => (h qt unit hqt hu).right q4.grow⟩
+
+/-- **Timers.**  For a timer cut into the modifier tokens `mtoks` and the body `body`:
+    * modifiers present ⇒ `modifiers-not-allowed:timer` labelled with the span of the modifier tokens;
+    * (COMPONENT_ALIAS) a `|` among the name tokens, at index `i` ⇒ `alias-not-allowed:timer` labelled
+      from the `|` to the end of the name tokens;
+    * braces with content whose parsed quantity has no unit ⇒ `timer-missing-unit`, labelled with the
+      position right after the value;
+    * no quantity, TIMER_REQUIRES_TIME ⇒ `timer-missing-quantity` labelled with the braces (or the
+      position after the name);
+    * no quantity, not TIMER_REQUIRES_TIME, blank name ⇒ `timer-neither-name-nor-quantity` labelled
+      from the name offset to the closing brace.
+    All are severity error, stage parse.  Partial: label-inside-the-component is not proved. -/
+theorem C07_timer_diagnostics_partial (s s1 s2 s3 : BP α) (mtoks : List Tok) (body : Body)
+    (hc : Cut .tilde s mtoks body s1 s2 s3) :
+    (mtoks.isEmpty = false →
+      Has (.error ⟨.error, .parse, "modifiers-not-allowed:timer", [tokensSpan mtoks]⟩) s (timerP s).2) ∧
+    (∀ i, s.ext.has Gen.EXT_COMPONENT_ALIAS = true → body.name.findIdx? (fun t => t.kind == .or) = some i →
+      Has (.error ⟨.error, .parse, "alias-not-allowed:timer",
+        [⟨((body.name[i]?).getD dummyTok).start,
+          ((body.name.getLast?).getD ((body.name[i]?).getD dummyTok)).stop⟩]⟩) s (timerP s).2) ∧
+    (∃ sq, Grow s sq ∧ ∀ qt, body.quantity = some qt →
+      (parseQuantity (α := α) qt sq).1.quantity.val.unit = none →
+      Has (.error ⟨.error, .parse, "timer-missing-unit",
+        [Span.pos (parseQuantity (α := α) qt sq).1.quantity.val.value.value.span.stop]⟩) s (timerP s).2) ∧
+    (body.quantity = none → s.ext.has Gen.EXT_TIMER_REQUIRES_TIME = true →
+      Has (.error ⟨.error, .parse, "timer-missing-quantity",
+        [body.close.getD (Span.pos (buildText (curOff s2) body.name).span.stop)]⟩) s (timerP s).2) ∧
+    (body.quantity = none → s.ext.has Gen.EXT_TIMER_REQUIRES_TIME = false →
+      (buildText (curOff s2) body.name).isTextEmpty s.cs = true →
+      Has (.error ⟨.error, .parse, "timer-neither-name-nor-quantity", [timerNeitherSpan (curOff s2) body]⟩)
+        s (timerP s).2) := by
+  have q3 : Same s s3 := hc.same
+  have ht := timerTail_spec (α := α) (curOff s) (curOff s3) (curOff s2) mtoks body s3
+  unfold Sat at ht
+  rw [← timerP_cut hc] at ht
+  obtain ⟨h1, h2, ⟨sq, gq, h3⟩, h4, h5⟩ := ht
+  refine ⟨fun h => (h1 h).right q3.grow, fun i he hi => (h2 i (by rw [q3.2.1]; exact he) hi).right q3.grow,
+    ⟨sq, q3.grow.trans gq, fun qt hqt hu => (h3 qt hqt hu).right q3.grow⟩, ?_, ?_⟩
+  · intro hq he
+    exact (h4 hq (by rw [q3.2.1]; exact he)).right q3.grow
+  · intro hq he hb
+    exact (h5 hq (by rw [q3.2.1]; exact he) (by rw [q3.1]; exact hb)).right q3.grow
+
+/-! non-vacuity: `@{}` is an ingredient with a blank name; `~{}` is cut into a body without quantity
+    (no modifiers, no alias), so with every extension off it gets `timer-neither-name-nor-quantity` -/
+def C07_exIngr : BP Rat :=
+  ⟨[⟨.at, ['@'], 0⟩, ⟨.openBrace, ['{'], 1⟩, ⟨.closeBrace, ['}'], 2⟩], 0, ⟨0⟩, toyCharSpec, #[], none⟩
+example : ∃ i s', ingredientP C07_exIngr = (some (.ingredient i), s') ∧
+    i.val.name.isTextEmpty C07_exIngr.cs = true := ⟨_, _, rfl, rfl⟩
+def C07_exTimer : BP Rat :=
+  ⟨[⟨.tilde, ['~'], 0⟩, ⟨.openBrace, ['{'], 1⟩, ⟨.closeBrace, ['}'], 2⟩], 0, ⟨0⟩, toyCharSpec, #[], none⟩
+example : ∃ mtoks body s1 s2 s3, Cut .tilde C07_exTimer mtoks body s1 s2 s3 ∧ body.quantity = none ∧
+    C07_exTimer.ext.has Gen.EXT_TIMER_REQUIRES_TIME = false ∧
+    (buildText (curOff s2) body.name).isTextEmpty C07_exTimer.cs = true :=
+  ⟨_, _, _, _, _, ⟨⟨_, rfl⟩, rfl, rfl⟩, rfl, rfl, rfl⟩
+
+/-! ### Completeness in isolation, analysis level (src/analysis/event_consumer.rs) -/
+
+/-- **Dangling reference.**  If no existing component of the kind that is not itself a reference has
+    a name equal (under case folding) to the new one, the new component is not `+`, and it is treated
+    as a reference (it carries `&`, or the define mode is `steps`), then `resolve_reference` pushes the
+    error `reference-not-found` (error, analysis) as the LAST diagnostic, labelled with the component's
+    span (`location`), returns the modifiers unchanged with no target (the component stays a
+    definition) and changes nothing but the diagnostics. -/
+theorem C07_reference_not_found (env : Env) (container : String) (inherit : Nat)
+    (existing : List (Str × Modifiers)) (name : Str) (mods : Modifiers) (location modLoc : Span) (s : Col α)
+    (hnew : mods.contains Modifiers.NEW = false)
+    (hnone : ∀ (i : Nat) (n : Str) (m : Modifiers), existing[i]? = some (n, m) →
+      m.contains Modifiers.REF = false → nameEq env name n = false)
+    (href : mods.contains Modifiers.REF = true ∨ s.defineMode = .steps) :
+    (resolveReference env container inherit existing name mods location modLoc s).1 = (mods, none) ∧
+    ∃ pre, (resolveReference env container inherit existing name mods location modLoc s).2.diags.toList =
+        s.diags.toList ++ pre ++ [⟨.error, .analysis, "reference-not-found", [location]⟩] ∧
+      (resolveReference env container inherit existing name mods location modLoc s).2 =
+        { s with diags := (resolveReference env container inherit existing name mods location modLoc s).2.diags } :=
+  resolveReference_not_found env container inherit existing name mods location modLoc s hnew
+    (sameNameIdx_none env existing name hnone) href
+
+/-- **`+` and `&` together**: `ref-conflicting-modifiers` (error, analysis) on the modifiers' span;
+    the component stays a definition -/
+theorem C07_new_and_ref_conflict (env : Env) (container : String) (inherit : Nat)
+    (existing : List (Str × Modifiers)) (name : Str) (mods : Modifiers) (location modLoc : Span) (s : Col α)
+    (hn : mods.contains Modifiers.NEW = true) (hr : mods.contains Modifiers.REF = true) :
+    resolveReference env container inherit existing name mods location modLoc s =
+      ((mods, none),
+       { s with diags := s.diags.push ⟨.error, .analysis, "ref-conflicting-modifiers", [modLoc]⟩ }) :=
+  resolveReference_new_and_ref env container inherit existing name mods location modLoc s hn hr
+
+/-- **Intermediate references.**  Value 0 is `inter-ref-zero` (absolute) or `inter-ref-self`
+    (relative); a step number beyond the steps of the current section, or a section number beyond the
+    finished sections, is `inter-ref-bounds`; and whatever error the target computation gives,
+    `resolve_intermediate_ref` pushes it as an analysis error labelled with the span of the
+    intermediate data `(…)`, returning no relation. -/
+theorem C07_intermediate_ref_errors (d : Loc InterData) (s : Col α) (hv : 0 ≤ d.val.val) :
+    (∀ kind, interRefTarget s.cur.content s.sections.length d.val = .error kind →
+      resolveInterRef d s = (none, { s with diags := s.diags.push ⟨.error, .analysis, kind, [d.span]⟩ })) ∧
+    (d.val.val.toNat = 0 → interRefTarget s.cur.content s.sections.length d.val =
+      .error (if d.val.relative then "inter-ref-self" else "inter-ref-zero")) ∧
+    (d.val.val.toNat ≠ 0 → d.val.isSection = false → (stepIndices s.cur.content).length < d.val.val.toNat →
+      interRefTarget s.cur.content s.sections.length d.val = .error "inter-ref-bounds") ∧
+    (d.val.val.toNat ≠ 0 → d.val.isSection = true → s.sections.length < d.val.val.toNat →
+      interRefTarget s.cur.content s.sections.length d.val = .error "inter-ref-bounds") :=
+  ⟨fun kind h => resolveInterRef_error d s kind hv h, interRefTarget_zero _ _ _,
+   interRefTarget_bounds_step _ _ _, interRefTarget_bounds_section _ _ _⟩
+
+/-- **Bad mode value.**  With MODES, `>> [mode]: v` / `>> [define]: v` with `v` not one of
+    all/default/components/ingredients/steps/text, and `>> [duplicate]: v` with `v` not one of
+    new/default/reference/ref, push `config-invalid-value` (error, analysis) labelled with the value's
+    span, then the key's span, and change nothing else. -/
+theorem C07_bad_mode_value (env : Env) (key value : Text) (s : Col α)
+    (hm : env.ext.has Gen.EXT_MODES = true)
+    (hk1 : (key.trimmed env.cs).head? = some '[') (hk2 : (key.trimmed env.cs).getLast? = some ']')
+    (hk3 : (key.trimmed env.cs).length ≥ 2) :
+    ((String.ofList (((key.trimmed env.cs).drop 1).dropLast) = "define" ∨
+      String.ofList (((key.trimmed env.cs).drop 1).dropLast) = "mode") →
+     (∀ w ∈ ["all", "default", "components", "ingredients", "steps", "text"],
+        String.ofList (value.outerTrimmed env.cs) ≠ w) →
+     (metadataA env key value s).2 =
+       { s with diags := s.diags.push ⟨.error, .analysis, "config-invalid-value", [value.span, key.span]⟩ }) ∧
+    (String.ofList (((key.trimmed env.cs).drop 1).dropLast) = "duplicate" →
+     (∀ w ∈ ["new", "default", "reference", "ref"], String.ofList (value.outerTrimmed env.cs) ≠ w) →
+     (metadataA env key value s).2 =
+       { s with diags := s.diags.push ⟨.error, .analysis, "config-invalid-value", [value.span, key.span]⟩ }) :=
+  ⟨fun hc hv => metadataA_bad_mode env key value s hm hk1 hk2 hk3 hc hv,
+   fun hc hv => metadataA_bad_duplicate env key value s hm hk1 hk2 hk3 hc hv⟩
+
+/-- **Timer units (ADVANCED_UNITS).**  A text value gives `timer-value-text` on the value's span; a
+    unit the converter does not know gives `timer-unit-unknown`, a known unit of another physical
+    quantity gives `timer-unit-not-time`, both on the unit's span; a time unit gives nothing. -/
+theorem C07_timer_unit_checks (env : Env) (q : Loc (PQuantity α)) (r : Quantity (ScalableValue α)) (s : Col α)
+    (he : env.ext.has Gen.EXT_ADVANCED_UNITS = true) :
+    (r.value.val.isText = true → r.unit = none → (timerQuantityChecks env q r s).2 =
+      { s with diags := s.diags.push ⟨.error, .analysis, "timer-value-text", [q.val.value.value.span]⟩ }) ∧
+    (∀ u, r.value.val.isText = false → r.unit = some u →
+      (env.findUnit u = none → (timerQuantityChecks env q r s).2 =
+        { s with diags := s.diags.push (⟨.error, .analysis, "timer-unit-unknown",
+            [(q.val.unit.map (·.span)).getD ⟨0, 0⟩]⟩ : Diag) }) ∧
+      (∀ pq, env.findUnit u = some pq → pq ≠ env.timeQ → (timerQuantityChecks env q r s).2 =
+        { s with diags := s.diags.push (⟨.error, .analysis, "timer-unit-not-time",
+            [(q.val.unit.map (·.span)).getD ⟨0, 0⟩]⟩ : Diag) }) ∧
+      (env.findUnit u = some env.timeQ → (timerQuantityChecks env q r s).2 = s)) :=
+  ⟨fun ht hu => timerQuantityChecks_text env q r s he ht hu,
+   fun u ht hu => timerQuantityChecks_unit env q r s u he ht hu⟩
+
+/-- **Note on a reference**, partial: `note_reference_error` pushes `note-in-reference` (error,
+    analysis) labelled with the note's span widened over its parentheses, then the definition's note
+    (or the position after the definition).  Missing: that `ingredient`/`cookware` reach it exactly
+    when the new component is a resolved reference carrying a note. -/
+theorem C07_note_in_reference_partial (input : Str) (noteSpan defSpan : Span) (defNote : Option Span) (s : Col α) :
+    (noteReferenceError (α := α) input noteSpan defSpan defNote s).2 =
+      { s with diags := s.diags.push ⟨.error, .analysis, "note-in-reference",
+        [noteRefSpan input noteSpan, defNote.getD (Span.pos defSpan.stop)]⟩ } :=
+  noteReferenceError_run input noteSpan defSpan defNote s
+
+/-! non-vacuity of the analysis hypotheses -/
+example : (Modifiers.mk (Modifiers.NEW ||| Modifiers.REF)).contains Modifiers.NEW = true ∧
+    (Modifiers.mk (Modifiers.NEW ||| Modifiers.REF)).contains Modifiers.REF = true := by decide
+example : interRefTarget [] 0 ⟨false, false, 0⟩ = .error "inter-ref-zero" := by rfl
+example : interRefTarget [] 0 ⟨true, false, 0⟩ = .error "inter-ref-self" := by rfl
+example : interRefTarget [] 0 ⟨false, false, 99⟩ = .error "inter-ref-bounds" := by rfl
+
+/-! ### Soundness, simplest shape -/
+
+/-- **A plain component is quiet** (parser part).  An ingredient or cookware item cut into no
+    modifier tokens, a body without quantity (`@name{}` or the single-word form), name tokens without
+    alias separator (or COMPONENT_ALIAS off) and a non-blank name: the parser returns the component
+    with empty modifiers, that name, no alias, no quantity, and pushes NO event at all (the queue,
+    the tables and the extensions of the final state are those of the initial state).
+    Partial: the analysis half (default modes push nothing for such a definition), timers, and the
+    extension to `{n%unit}` are not proved here. -/
+theorem C07_quiet_component_partial (s s1 s2 s3 s4 : BP α) (body : Body) (note : Option Text)
+    (hq : body.quantity = none)
+    (ha : s.ext.has Gen.EXT_COMPONENT_ALIAS = false ∨ ∀ t ∈ body.name, t.kind ≠ .or)
+    (hn : (buildText (curOff s2) body.name).isTextEmpty s.cs = false) (hnote : noteP s3 = (note, s4)) :
+    (Cut .at s [] body s1 s2 s3 →
+      (ingredientP s).1 = some (.ingredient
+        ⟨⟨⟨Modifiers.empty, Span.pos (curOff s1)⟩, none, buildText (curOff s2) body.name, none, none, note⟩,
+         ⟨curOff s, curOff s4⟩⟩) ∧ (ingredientP s).2.evs = s.evs) ∧
+    (Cut .hash s [] body s1 s2 s3 →
+      (cookwareP s).1 = some (.cookware
+        ⟨⟨⟨Modifiers.empty, Span.pos (curOff s1)⟩, buildText (curOff s2) body.name, none, none, note⟩,
+         ⟨curOff s, curOff s4⟩⟩) ∧ (cookwareP s).2.evs = s.evs) := by
+  constructor
+  · intro hc
+    have q4 : Same s s4 := hc.same.trans (noteP_same hnote)
+    have ht := ingredientTail_quiet (α := α) (curOff s) (curOff s4) (curOff s1) (curOff s2) body note s4 hq
+      (by rw [q4.2.1]; exact ha) (by rw [q4.1]; exact hn)
+    unfold Sat at ht
+    rw [← ingredientP_cut hc hnote] at ht
+    exact ⟨ht.2, (q4.trans ht.1).2.2⟩
+  · intro hc
+    have q4 : Same s s4 := hc.same.trans (noteP_same hnote)
+    have ht := cookwareTail_quiet (α := α) (curOff s) (curOff s4) (curOff s1) (curOff s2) body note s4 hq
+      (by rw [q4.2.1]; exact ha) (by rw [q4.1]; exact hn)
+    unfold Sat at ht
+    rw [← cookwareP_cut hc hnote] at ht
+    exact ⟨ht.2, (q4.trans ht.1).2.2⟩
+
+/-! non-vacuity: `@salt{}` with every extension off -/
+def C07_exSalt : BP Rat :=
+  ⟨[⟨.at, ['@'], 0⟩, ⟨.word, ['s', 'a', 'l', 't'], 1⟩, ⟨.openBrace, ['{'], 5⟩, ⟨.closeBrace, ['}'], 6⟩],
+   0, ⟨0⟩, toyCharSpec, #[], none⟩
+example : ∃ body note s1 s2 s3 s4, Cut .at C07_exSalt [] body s1 s2 s3 ∧ noteP s3 = (note, s4) ∧
+    body.quantity = none ∧ C07_exSalt.ext.has Gen.EXT_COMPONENT_ALIAS = false ∧
+    (buildText (curOff s2) body.name).isTextEmpty C07_exSalt.cs = false :=
+  ⟨_, _, _, _, _, _, ⟨⟨_, rfl⟩, rfl, rfl⟩, rfl, rfl, rfl, rfl⟩
 
 end Cook
